@@ -240,9 +240,9 @@ def apply_meta_op(op, md, model):
         return 'keyerror', None
     if kind == 'meta_popitem':
         if not model:
-            if not isinstance(exc, KeyError):
-                return 'raised' if exc else 'ok', ('meta.popitem', f'empty:{type(exc).__name__ if exc else "no_exception"}', '')
-            return 'keyerror', None
+            if exc is None:
+                return 'ok', ('meta.popitem', 'empty:no_exception', '')
+            return 'keyerror', None        # nothing to pop: it raises (KeyError is named only for pop and del)
         if exc is not None:
             return 'raised', ('meta.popitem', f'nonempty_raises:{type(exc).__name__}', str(exc)[:200])
         try:
